@@ -76,8 +76,11 @@ H = {}
 LOG = []           # event log of the current run, written by the harness modules
 
 EPS = np.finfo(float).eps
-KN = 2000.0        # noise allowance: KN * eps / h * |w| * scale   (calibrated, margins recorded)
-TOL_AN = 1e-11     # relative allowance on the analytical value (pure rounding)
+# Calibration on the unchanged tree (20 000 runs, all dx): largest numerical error in excess of the rigorous C*dx bound =
+# 2.9e-4 of the noise allowance below (3.5 orders of magnitude of head room); largest analytical error = 8.7e-5 of its
+# allowance; the C*dx bound itself (C = |w| * bound on the second derivative / 2) is attained up to 0.67 (z -> z^2).
+KN = 2000.0        # noise allowance: KN * eps / h * |w| * (1 + max signal norm + first-derivative bound * (1 + |x0|))
+TOL_AN = 1e-11     # allowance on the analytical value: TOL_AN * (1 + sum |w_i| |J_ik|)   (pure rounding)
 BIG = 0.02         # a wrong block is "observable" when the exact discrepancy exceeds this
 
 
@@ -290,6 +293,8 @@ def simplify(case):
         c = clone(); c["wrap"] = "module"; yield c
     if case["stale"]:
         c = clone(); c["stale"] = False; yield c
+    if case["fault"] is not None:
+        c = clone(); c["fault"] = None; yield c
     for key in ("frm", "to"):
         if case["sel"][key] is not None:
             c = clone(); c["sel"][key] = None; yield c
@@ -310,6 +315,22 @@ def simplify(case):
     for key, val in (("relative_dx", False), ("verbose", False), ("seedmode", "ones"), ("kzs", None), ("tol", 1e-5), ("dx", 1e-6)):
         if case["fd"][key] != val:
             c = clone(); c["fd"][key] = val; yield c
+    # references are indices modulo the pool size: small explicit indices let ddmin drop unrelated sources / modules
+    for i, op in enumerate(case["ops"]):
+        for k, v in enumerate(op["ins"]):
+            for nv in range(0, 5):
+                if v > 4 and nv != v:
+                    c = clone(); c["ops"][i]["ins"][k] = nv; yield c
+    for key in ("frm", "to"):
+        for k, v in enumerate(case["sel"][key] or []):
+            for nv in range(0, 5):
+                if v > 4 and nv != v:
+                    c = clone(); c["sel"][key][k] = nv; yield c
+    if case["fault"] is not None:
+        for key in ("op", "o", "j"):
+            if case["fault"][key] > 3:
+                for nv in range(0, 4):
+                    c = clone(); c["fault"][key] = nv; yield c
     for i, op in enumerate(case["ops"]):
         if op["kind"] == "lin":
             if len(op["ins"]) > 1:
@@ -816,6 +837,8 @@ def run(case):
         if form in ("py", "npy") and s["cplx"]:
             cons = [mods[c]["spec"]["ssens"] for c in s["consumers"]]
             feats.append("scalar-sens:" + "+".join(sorted(set(cons))))
+            if "py" in cons:
+                feats.append("python-complex-sensitivity-of-scalar-input")
     P.pop("_arr", None)
     for o in outps:
         s = pool[o]
@@ -873,7 +896,7 @@ def run(case):
     res["trace"].append(f"K:{dx:g}:{int(kw['relative_dx'])}:{seedmode}:{fdk['kzs']}:{int(kw['verbose'])}:{'stale' if case.get('stale') else '-'}")
 
     if err is not None:
-        viol("exception", f"finite_difference raised {type(err).__name__}: {str(err)[:160]}", 0)
+        viol("exception", f"finite_difference raised {type(err).__name__}: {str(err)[:160]}", 0, ["exc:" + type(err).__name__])
         return res
 
     # ---- seeds actually used, from the event log of the harness modules
